@@ -52,6 +52,85 @@ func blockingInstr(in ssa.Instruction) string {
 
 // ruleA19: nothing reachable from root (module functions through the VTA call graph, excluding
 // go statements) blocks or calls the wrapped writer.
+// syncReach: the module functions reachable from root through synchronous calls (go statements
+// excluded), with the call chain that reaches each.
+func syncReach(p *Prog, root *ssa.Function) ([]*ssa.Function, map[*ssa.Function]string) {
+	cg := p.CG()
+	seen := map[*ssa.Function]string{}
+	var order []*ssa.Function
+	var visit func(f *ssa.Function, via string)
+	visit = func(f *ssa.Function, via string) {
+		if _, ok := seen[f]; ok || f == nil || !InModule(f) || f.Blocks == nil {
+			return
+		}
+		seen[f] = via
+		order = append(order, f)
+		n := cg.Nodes[f]
+		if n == nil {
+			return
+		}
+		for _, e := range n.Out {
+			if _, isGo := e.Site.(*ssa.Go); isGo {
+				continue
+			}
+			visit(e.Callee.Func, via+" → "+FnName(e.Callee.Func))
+		}
+	}
+	visit(root, FnName(root))
+	return order, seen
+}
+
+// ruleNoReentrantLock (C12): the consumer runs the user's alerter (through TryNext) while it
+// holds the waiter's mutex; an alerter that logs to the same diode re-enters the producer path on
+// the consumer goroutine, so the producer path must not take that mutex (sync.Mutex is not
+// re-entrant: the consumer would block on itself with work pending, and Close with it).
+func ruleNoReentrantLock(r *Run, p *Prog, rule string) {
+	named := p.NamedType(diodesRel, "Waiter")
+	next := p.Method(diodesRel, "Waiter", "Next")
+	w := p.Method("diode", "Writer", "Write")
+	if !r.Anchor(named != nil && next != nil && w != nil, rule, "diodes.Waiter, (*Waiter).Next, diode.Writer.Write") {
+		return
+	}
+	var mu *types.Var
+	st := named.Underlying().(*types.Struct)
+	for i := 0; i < st.NumFields(); i++ {
+		if isMutexType(st.Field(i).Type()) {
+			mu = st.Field(i)
+		}
+	}
+	if mu == nil {
+		r.Ob(rule, "producer-path/no-consumer-mutex", p.Pos(next.Pos()), true, true, "the waiter has no mutex")
+		return
+	}
+	heldAt := ""
+	eachInstr(next, func(b *ssa.BasicBlock, i int, in ssa.Instruction) {
+		c, ok := in.(*ssa.Call)
+		if !ok || !c.Call.IsInvoke() || c.Call.Method.Name() != "TryNext" {
+			return
+		}
+		if lockedAround(next, c, mu) {
+			heldAt = p.Pos(c.Pos())
+		}
+	})
+	if heldAt == "" {
+		r.Ob(rule, "producer-path/no-consumer-mutex", p.Pos(next.Pos()), true, true, "(*Waiter).Next does not hold the waiter's mutex while it calls TryNext (and through it the alerter)")
+		return
+	}
+	order, via := syncReach(p, w)
+	bad, badPos := "", ""
+	for _, f := range order {
+		eachInstr(f, func(b *ssa.BasicBlock, i int, in ssa.Instruction) {
+			if n, _, ok := mutexCall(in, mu); ok && (n == "Lock" || n == "RLock") && bad == "" {
+				bad, badPos = via[f], p.Pos(in.Pos())
+			}
+		})
+	}
+	if bad == "" {
+		badPos = heldAt
+	}
+	r.Ob(rule, "producer-path/no-consumer-mutex", badPos, bad == "", true, tern(bad == "", fmt.Sprintf("the consumer calls TryNext (which runs the alerter) holding Waiter.%s at %s; none of the %d functions reachable from diode.Writer.Write takes that mutex, so an alerter that logs to the same diode cannot block the consumer on itself", mu.Name(), heldAt, len(order)), "the producer path "+bad+" takes Waiter."+mu.Name()+", which the consumer holds (at "+heldAt+") while TryNext runs the user's alerter: an alerter that writes to the same diode locks a mutex its own goroutine already holds — the consumer blocks forever with work pending, every later Write blocks in Set, and Close never returns"))
+}
+
 func ruleA19(r *Run, p *Prog, rule string, root *ssa.Function, forbidField string) {
 	cg := p.CG()
 	seen := map[*ssa.Function]string{}
